@@ -13,7 +13,7 @@ import re
 
 from ..circles import Catalogue, gap_to_circle
 from ..common import module_region, short, where
-from ..exprs import inline_calls, is_const, mentions, simplify, strip
+from ..exprs import ELEM, inline_calls, is_const, iter_element, mentions, simplify, strip
 from ..mirlib import Expr, Program, expr_str
 from ..tae import TableError
 
@@ -167,6 +167,22 @@ def run(run):
             run.bad("C13.T2", "circles-span-partial", where(prog.bodies[root]), "CIRCLES_SPAN is not collected from an iteration over CIRCLE_MAP")
     else:
         run.missing("C13.T2", "initialiser of CIRCLES_SPAN")
+    if not okc and root in prog.bodies:
+        # the entries seen through the iterator chain: `helper().map(|(art, span)| (Circle::new(..), span)).collect()` with a
+        # helper that yields (art, localised span) is the same table
+        for r in Expr(prog, root).returns():
+            r = strip(r)
+            if r[0] == "call" and re.search(r"FromIterator<.*>>::from_iter$|Iterator::collect$", r[1]) and r[2]:
+                el = iter_element(prog, r[2][0])
+                if el is not None and el[0] == "agg" and len(el[3]) == 2:
+                    c = strip(el[3][0][1])
+                    sp = strip(simplify(inline_calls(prog, el[3][1][1], keep=r"span::Span::localize$")))
+                    item_ok = lambda a: strip(a) == ELEM or (strip(a)[0] == "field" and strip(strip(a)[1]) == ELEM) or strip(a)[0] == "param"
+                    if c[0] == "call" and c[1].endswith("circle::Circle::new") and is_const(c[2][2], 0) and \
+                            strip(c[2][0])[0] == "call" and strip(c[2][0])[1].endswith("CircleArt::center") and item_ok(strip(c[2][0])[2][0]) and \
+                            strip(c[2][1])[0] == "call" and strip(c[2][1])[1].endswith("CircleArt::radius") and strip(strip(c[2][1])[2][0]) == strip(strip(c[2][0])[2][0]) and \
+                            sp[0] == "call" and sp[1].endswith("span::Span::localize"):
+                        okc = True
     if okc:
         run.ok("C13.T2", "CIRCLES_SPAN entries = (Circle::new(center(), radius(), unfilled), localised span)", cat.file)
     else:
